@@ -5,6 +5,7 @@ import (
 	"go/token"
 	"go/types"
 	"strings"
+	"unsafe"
 
 	"golang.org/x/tools/go/ssa"
 
@@ -38,6 +39,11 @@ func (w *Worker) findIntrinsic(fn *ssa.Function) intrinsic {
 	}
 	if in, ok := stdIntrinsics[name]; ok {
 		return in
+	}
+	if o := fn.Origin(); o != nil {
+		if in, ok := stdIntrinsics[o.String()]; ok {
+			return in
+		}
 	}
 	// package initialisers of dependencies are not executed
 	if fn.Name() == "init" && fn.Pkg != nil && fn.Pkg != w.eng.Pkg && fn.Signature.Recv() == nil {
@@ -599,6 +605,15 @@ func init() {
 				}
 			}
 			return w.tb.True
+		},
+		"slices.overlaps": func(fr *frame, a []value) value {
+			x, y := a[0].([]value), a[1].([]value)
+			if len(x) == 0 || len(y) == 0 {
+				return fr.w.tb.False
+			}
+			x0, x1 := uintptr(unsafe.Pointer(&x[0])), uintptr(unsafe.Pointer(&x[len(x)-1]))
+			y0, y1 := uintptr(unsafe.Pointer(&y[0])), uintptr(unsafe.Pointer(&y[len(y)-1]))
+			return fr.w.tb.Bool(x0 <= y1 && y0 <= x1)
 		},
 		"sort.Strings": func(fr *frame, a []value) value {
 			s := a[0].([]value)
